@@ -125,13 +125,21 @@ func encodeBarrier(
 
 // A barrier error is decoded exactly.
 func decodeBarrier(ctx context.Context, msg string, _ []string, payload proto.Message) error {
-	enc := payload.(*errbase.EncodedError)
+	enc, ok := payload.(*errbase.EncodedError)
+	if !ok {
+		// The payload is missing or of another type (e.g. sent by
+		// a different version): let DecodeError use the opaque type.
+		return nil
+	}
 	return &barrierErr{smsg: redact.RedactableString(msg), maskedErr: errbase.DecodeError(ctx, *enc)}
 }
 
 // Previous versions of barrier errors.
 func decodeBarrierPrev(ctx context.Context, msg string, _ []string, payload proto.Message) error {
-	enc := payload.(*errbase.EncodedError)
+	enc, ok := payload.(*errbase.EncodedError)
+	if !ok {
+		return nil
+	}
 	return &barrierErr{smsg: redact.Sprint(msg), maskedErr: errbase.DecodeError(ctx, *enc)}
 }
 
